@@ -94,7 +94,9 @@ def setup(ctx):
     reader.read_header_line = icontract.ensure(post, error=Broken)(reader.read_header_line)
 
 
-LITERALS = [   # documented examples and the witnesses of known findings (always part of the grid)
+LITERALS = [
+    ("REMARK : depth ref: KB", 3, {"name": "REMARK", "unit": "", "value": "depth ref: KB", "descr": ""}),
+    ("RATIO:1:2", 3, {"name": "RATIO", "unit": "", "value": "1:2", "descr": ""}),   # documented examples and the witnesses of known findings (always part of the grid)
     ("r .e:bc (RT) :12-34-12-34W5M", 3, {"name": "r", "unit": "e:bc", "value": "(RT)", "descr": "12-34-12-34W5M"}),
     ("TIML.hh:mm 23:15 23-JAN-2001:   Time Logger: At Bottom", 3, {"name": "TIML", "unit": "hh:mm", "value": "23:15 23-JAN-2001", "descr": "Time Logger: At Bottom"}),
     ("HKLA            .1000 lbf                                  :(RT)", 3, {"name": "HKLA", "unit": "1000 lbf", "value": "", "descr": "(RT)"}),
@@ -148,8 +150,11 @@ def make_line(rng, form, section, hour=None):
     m = F.mnemonic(rng)
     if form == "noperiod":
         v = F.text(rng, colons=rng.random() < 0.4, periods=True)
-        if rng.random() < 0.2:
+        k = rng.random()
+        if k < 0.2:
             v = F.clock(rng)
+        elif k < 0.45:      # the value of a NAME : VALUE line is everything after the first colon, further colons included
+            v = rng.choice(["depth ref: KB", "1:2", "a: b: c", "14:30 23-JAN-2001 : night shift", "x :y", "ratio 1:100 (approx.)", F.text(rng, colons=False) + ": " + F.text(rng, colons=False)]).strip()
         p = [rng.choice(F.PADS) for _ in range(4)]
         line = "%s%s%s:%s%s%s" % (p[0], m, p[1], p[2], v, p[3])
         if "." in line[:line.find(":")]:
